@@ -87,9 +87,27 @@ CHECKS["C01"] = dict(
          "listed deviation class",
     design_ref="DESIGN.md §5 C01, §6 D1-D5, Appendix A/B",
     note=TB + ". partial: the step text -> sqlfluff tree (third-party grammars) is not modelled; UPDATE/MERGE/COPY/SELECT INTO are not "
-         "in the typed AST yet. Known findings D1, D2, D2w, D3, D4, D5, D7 (table lineage lost at specific syntactic positions).",
+         "in the typed AST yet. D1 repaired (4da7204). Known findings D2, D2w, D3, D4, D5, D7 (table lineage lost at specific syntactic positions).",
     technique="Lean 4 model + specification with proved dispatch lemmas; three-way differential (implementation / model / specification) "
               "on Lean-rendered SQL",
+)
+
+CHECKS["C02"] = dict(
+    category="proof",
+    text="Lean theorems about the column layer of the model for every expression / alias map / graph: the naming rule (alias, "
+         "else own name, else expression text; source references independent of the text), scope resolution (qualified reference "
+         "resolves to the relation answering to the qualifier; unknown qualifier becomes a table, never a guess; unqualified "
+         "reference resolves to the only relation, or carries exactly the scope as candidates whatever the set iteration order), "
+         "which names a table answers to, positional wiring rule of end_of_query_cleanup, D6/D7 mechanisms. The end-to-end "
+         "statement pairs_exact is NOT proved (kept as a comment): the composition of the layers is tied to the code by the "
+         "SQL-level correspondence — every generated data-moving statement (bounded-exhaustive shapes + seeded random, expression "
+         "depth<=3, nesting<=4) run through the real LineageRunner under 3 (quick) / all (thorough) dialects, complete path sets "
+         "compared with the model's, tolerant only of the hash-order class D16",
+    design_ref="DESIGN.md §5 C02, §6 D6-D9, D25",
+    note=TB + ". partial (staged): no Lean specification of column dataflow yet; `_get_column_from_subquery` (sqlparse analyzer on the raw "
+         "subquery text) is not modelled, so statements with a subquery inside a select item are outside the column-level "
+         "correspondence; UPDATE/MERGE not in the typed AST. Known findings D6, D7, D16, D25.",
+    technique="Lean 4 proof of the column-resolution layer + differential correspondence of complete column path sets on Lean-rendered SQL",
 )
 
 NOT_YET = "machinery not built yet (build phase in progress, see DESIGN.md §9)"
